@@ -389,6 +389,12 @@ pub fn shrink_cmd(id: &str, viol_json: &str) -> i32 {
         if t0.elapsed().as_secs() > 30 {
             return false;
         }
+        // once a simulated node has called exit() (or leaked a thread) this process cannot host another
+        // run (std lets one thread per process through process::exit; a second caller blocks for good):
+        // further candidates are executed in a child process each
+        if crate::simnet::restart_requested() {
+            return try_in_child(def.id, cfg, w, e).as_deref() == Some(class.as_str());
+        }
         let o = execute(&def, cfg, Tape::replay(w.to_vec()), Tape::replay(e.to_vec()), false);
         matches!(&o.result, Err(v) if v.class == class)
     };
@@ -398,24 +404,101 @@ pub fn shrink_cmd(id: &str, viol_json: &str) -> i32 {
         return 0;
     }
     let (w2, e2, execs) = simcore::shrink(w, e, max_exec, &mut test);
-    let o = execute(&def, cfg, Tape::replay(w2.clone()), Tape::replay(e2.clone()), true);
+    if crate::simnet::restart_requested() {
+        // the final, traced execution needs a fresh process as well
+        let doc = json!({"property": def.id, "cfg": cfg, "wtape": w2, "etape": e2, "seed": j["seed"], "run": j["run"], "shrink_execs": execs});
+        return match child_json(&["final", def.id], &doc.to_string()) {
+            Some(out) => {
+                println!("{}", out);
+                0
+            }
+            None => {
+                println!("{}", json!({"reproduces": false}));
+                0
+            }
+        };
+    }
+    print_final(&def, cfg, w2, e2, &j["seed"], &j["run"], execs);
+    0
+}
+
+fn print_final(def: &CheckDef, cfg: usize, w2: Vec<u32>, e2: Vec<u32>, seed: &Value, run: &Value, execs: usize) {
+    let o = execute(def, cfg, Tape::replay(w2.clone()), Tape::replay(e2.clone()), true);
     let v = match &o.result {
         Err(v) => v.clone(),
         Ok(()) => {
             println!("{}", json!({"reproduces": false}));
-            return 0;
+            return;
         }
     };
     println!(
         "{}",
         json!({
             "reproduces": true, "property": def.id, "config": def.configs[cfg], "cfg": cfg,
-            "seed": j["seed"], "run": j["run"], "wtape": w2, "etape": e2,
+            "seed": seed, "run": run, "wtape": w2, "etape": e2,
             "violation": {"oracle": v.oracle, "class": v.class, "msg": v.msg},
             "trace": o.obs.trace, "hash": format!("{:016x}", o.obs.hash), "shrink_execs": execs,
         })
     );
-    0
+}
+
+/// `dcmsim try <id>` / `dcmsim final <id>`: one execution of the tapes given on stdin, in this (fresh) process
+pub fn try_cmd(id: &str, doc: &str, fin: bool) -> i32 {
+    let def = match find(id) {
+        Some(d) => d,
+        None => return 2,
+    };
+    install_panic_hook();
+    let j: Value = match serde_json::from_str(doc) {
+        Ok(j) => j,
+        Err(_) => return 2,
+    };
+    let cfg = j["cfg"].as_u64().unwrap_or(0) as usize;
+    let (w, e) = tapes_of(&j);
+    if fin {
+        print_final(&def, cfg, w, e, &j["seed"], &j["run"], j["shrink_execs"].as_u64().unwrap_or(0) as usize);
+    } else {
+        let o = execute(&def, cfg, Tape::replay(w), Tape::replay(e), false);
+        println!("{}", json!({"class": o.result.err().map(|v| v.class)}));
+    }
+    use std::io::Write;
+    let _ = std::io::stdout().flush();
+    // leave without running exit handlers: a parked "exited" node thread may hold the guard in std's exit path
+    unsafe { libc::_exit(0) }
+}
+
+/// run `dcmsim <args>` with `input` on stdin; its stdout (one line), or None after 20 s / on failure
+fn child_json(args: &[&str], input: &str) -> Option<String> {
+    use std::io::{Read, Write};
+    use std::process::{Command, Stdio};
+    let exe = std::env::current_exe().ok()?;
+    let mut ch = Command::new(exe).args(args).stdin(Stdio::piped()).stdout(Stdio::piped()).stderr(Stdio::null()).spawn().ok()?;
+    ch.stdin.take()?.write_all(input.as_bytes()).ok()?;
+    let t0 = Instant::now();
+    loop {
+        match ch.try_wait() {
+            Ok(Some(_)) => break,
+            Ok(None) => {
+                if t0.elapsed().as_secs() > 20 {
+                    let _ = ch.kill();
+                    let _ = ch.wait();
+                    return None;
+                }
+                std::thread::sleep(std::time::Duration::from_millis(2));
+            }
+            Err(_) => return None,
+        }
+    }
+    let mut out = String::new();
+    ch.stdout.take()?.read_to_string(&mut out).ok()?;
+    out.lines().last().map(|l| l.to_string())
+}
+
+fn try_in_child(id: &str, cfg: usize, w: &[u32], e: &[u32]) -> Option<String> {
+    let doc = json!({"cfg": cfg, "wtape": w, "etape": e});
+    let out = child_json(&["try", id], &doc.to_string())?;
+    let j: Value = serde_json::from_str(&out).ok()?;
+    j["class"].as_str().map(|s| s.to_string())
 }
 
 /// Re-execute a replay file. exit 1 + VIOLATION line when it reproduces
@@ -808,7 +891,24 @@ pub fn check_cmd(id: &str, tier: &str, seed: u64) -> i32 {
                     let mut si = ch.stdin.take().unwrap();
                     si.write_all(v.to_string().as_bytes())?;
                 }
-                ch.wait_with_output()
+                // a shrinker that blocks (it hosts real node threads) is killed; the violation is then reported unshrunk
+                let pid = ch.id() as i32;
+                let done = std::sync::Arc::new(std::sync::atomic::AtomicBool::new(false));
+                let done2 = done.clone();
+                let killer = std::thread::spawn(move || {
+                    let t0 = Instant::now();
+                    while !done2.load(std::sync::atomic::Ordering::SeqCst) {
+                        if t0.elapsed().as_secs() > 150 {
+                            unsafe { libc::kill(pid, libc::SIGKILL) };
+                            break;
+                        }
+                        std::thread::sleep(std::time::Duration::from_millis(50));
+                    }
+                });
+                let r = ch.wait_with_output();
+                done.store(true, std::sync::atomic::Ordering::SeqCst);
+                let _ = killer.join();
+                r
             })();
             match out {
                 Ok(o) if o.status.success() => {
